@@ -43,6 +43,8 @@ def shards(tier):
     for i in range(16):
         out.append({"kind": "tamper", "slice": [i, 16], "deltas": [1, 0x80, 0xFF] if tier == "quick" else list(range(1, 256))})
     out.append({"kind": "rounds"})
+    out.append({"kind": "sequences"})
+    out.append({"kind": "large"})
     return out
 
 
@@ -50,6 +52,19 @@ def config_text(n: int) -> str:
     """A VMX configuration of exactly n bytes made of well-formed lines."""
     if n == 0:
         return ""
+    if n > 200:
+        lines = []
+        left = n
+        i = 0
+        while left > 120:
+            ln = f'key{i:06d} = "{("v%d-" % i) * 12}"'
+            lines.append(ln)
+            left -= len(ln) + 1
+            i += 1
+        lines.append("t=" + "z" * (left - 2))
+        text = "\n".join(lines)
+        assert len(text.encode()) == n, (n, len(text.encode()))
+        return text
     base = 'scsi0:0.fileName = "disk-ä.vmdk"\nmemsize = "512"\nnumvcpus = "2"\n'
     if n < 5:
         return "a=bcd"[:n] if n >= 3 else ("a=" if n == 2 else "a")
@@ -105,6 +120,15 @@ def run_shard(shard, ctx):
         for c, m, kd, sl, pi, ln, lay in sliced(space, i, k):
             run_case({"kind": "positive", "cipher": c, "mac": m, "kdf": kd, "rounds": 1, "salt": sl, "phrase": pi, "len": ln,
                       "layout": lay}, ctx)
+    elif kind == "sequences":
+        for c, m, kd in itertools.product(CIPHERS, MACS, KDFS):
+            for seq in itertools.product("RWT", repeat=3):
+                run_case({"kind": "sequence", "cipher": c, "mac": m, "kdf": kd, "seq": "".join(seq)}, ctx)
+    elif kind == "large":
+        for c, m in itertools.product(CIPHERS, MACS):
+            for ln in (65519, 65520, 65535, 65536, 65537, 131072, 200001):
+                run_case({"kind": "positive", "cipher": c, "mac": m, "kdf": KDFS[0], "rounds": 1, "salt": 16, "phrase": 1, "len": ln,
+                          "layout": "one"}, ctx)
     elif kind == "rounds":
         for c, m, kd, r in itertools.product(CIPHERS, MACS, KDFS, (1, 2, 1000)):
             run_case({"kind": "positive", "cipher": c, "mac": m, "kdf": kd, "rounds": r, "salt": 16, "phrase": 2, "len": 37,
@@ -129,6 +153,47 @@ def run_case(case, ctx):
     ctx.model({k: v for k, v in case.items() if k != "deltas"})
     ctx.sample({k: v for k, v in case.items() if k != "deltas"})
     with ctx.watch(case, 300):
+        if case["kind"] == "sequence":
+            # one VMX object, three unlock attempts in every order of {Right passphrase, Wrong passphrase, Tampered data}:
+            # a right attempt always succeeds, a wrong one always raises and leaves attr as it was, whatever came before
+            cfg = config_text(37)
+            text, outer, rblob, dblob, salt, dk = build(case["cipher"], case["mac"], case["kdf"], 1, 16, "password", cfg, "one")
+            v = VMX.parse(text)
+            ctx.nontrivial += 1
+            good_data = v.attr["encryption.data"]
+            t = bytearray(dblob)
+            t[20] ^= 0x40
+            bad_data = base64.b64encode(bytes(t)).decode()
+            for step, what in enumerate(case["seq"]):
+                ctx.transitions += 1
+                ctx.states += 1
+                before = copy.deepcopy(v.attr)
+                v.attr["encryption.data"] = bad_data if what == "T" else good_data
+                before["encryption.data"] = v.attr["encryption.data"]
+                try:
+                    v.unlock_with_phrase("password" if what in "RT" else "passw0rd")
+                    raised = False
+                except Exception:
+                    raised = True
+                if what == "R":
+                    exp = dict(before)
+                    exp.update(B.parse_dictionary(cfg))
+                    if raised or v.attr != exp:
+                        ctx.violation(case, {"subject": "vmx.unlock.sequence", "kind": "right-passphrase-failed-after-history",
+                                             "step": step}, {"seq": case["seq"], "raised": raised})
+                        return
+                    ctx.outcome("unlocked")
+                else:
+                    if not raised:
+                        ctx.violation(case, {"subject": "vmx.unlock.sequence", "kind": "accepted-after-history", "what": what,
+                                             "step": step}, {"seq": case["seq"]})
+                        return
+                    if v.attr != before:
+                        ctx.violation(case, {"subject": "vmx.unlock.sequence", "kind": "attr-changed-on-failure", "step": step},
+                                      {"seq": case["seq"]})
+                        return
+                    ctx.outcome("refused-wrong-passphrase" if what == "W" else "refused-tamper")
+            return
         if case["kind"] == "positive":
             phrase = PHRASES[case["phrase"]]
             cfg = config_text(case["len"])
